@@ -95,8 +95,12 @@ class ifthenelse(Command):
         for tok in test_iter:
             # Handle literal integers with tex.readNumber
             number_tokens: List[Token] = []
-            while tok.catcode == Token.CC_OTHER and (tok not in ['<', '>', '=']):
-                number_tokens.append(tok)
+            # (blanks may stand between the signs in front of a number)
+            while (tok.catcode == Token.CC_OTHER and (tok not in ['<', '>', '='])) or \
+                  (tok.catcode == Token.CC_SPACE and number_tokens and
+                   all(t in ['+', '-'] for t in number_tokens)):
+                if tok.catcode != Token.CC_SPACE:
+                    number_tokens.append(tok)
                 tok = next(test_iter, Space())
             if number_tokens:
                 value: int = tex.readInternalType(number_tokens, tex.readNumber)
